@@ -222,23 +222,34 @@ def _check_flags(repo, rep):
     if cen[(0, 0)][0].equals(cen[(0, 1)][0]) and cen[(0, 0)][1].equals(cen[(0, 1)][1]):
         ok = False
         rep.fail("R-CASE.arc-flags", F, "scale_factor sign", "the flags no longer select between the two centres", A, A.func("EllipticalArc.end_to_center_parametrization"))
-    # orientation: delta = point2 - point1, left normal (-dy, dx), negated iff sweep == large
+    # orientation (which of the two centres): evaluated on two concrete arcs whose radicand is a perfect square
     fnode = A.func("EllipticalArc.end_to_center_parametrization")
-    txt = unparse(fnode)
-    neg = [n for n in walk_no_nested(fnode) if isinstance(n, ast.If) and any(unparse(s) == "scale_factor = -scale_factor" for s in n.body)]
-    orient_ok = "delta = point2 - point1" in txt and "Vector(-delta.y, delta.x)" in txt and "delta *= scale_factor" in txt and len(neg) == 1 and not neg[0].orelse
-    if orient_ok:
-        it = Interp(repo)
+    fnc = method_of(repo, "arc_to_cubic", "EllipticalArc", "end_to_center_parametrization")
+
+    def PT(x, y):
+        return Rec(ClassRef("geometric_types", "Point"), {"x": x, "y": y})
+
+    orient_bad = None
+    for (rx, ry, end, plus, minus) in ((1, 1, (1, 1), (0, 1), (1, 0)), (2, 1, (2, 1), (0, 1), (2, 0))):
         for large in (0, 1):
             for sweep in (0, 1):
-                t = it.decide(it.eval(neg[0].test, {"__mod__": A, "self": ARC(large=large, sweep=sweep)}))
-                if bool(t) != (large == sweep):
-                    orient_ok = False
-    if not orient_ok:
+                arc = Rec(ClassRef("arc_to_cubic", "EllipticalArc"), {"start_point": PT(0, 0), "rx": rx, "ry": ry, "rotation": 0, "large": large, "sweep": sweep, "end_point": PT(*end)})
+                for o in _und(explore(repo, fnc, [arc]), F):
+                    if any(v and "EPSILON" in repr(c) for c, v in o.decisions):
+                        continue  # |determinant| <= float epsilon: not this arc (the machine epsilon is kept symbolic)
+                    if o.raised:
+                        orient_bad = f"raises {o.raised} on a regular arc"
+                        continue
+                    c = o.value.f["center_point"]
+                    got = (to_rf(c.f["x"]), to_rf(c.f["y"]))
+                    want = plus if large != sweep else minus
+                    if not (got[0].equals(RF.of(want[0])) and got[1].equals(RF.of(want[1]))):
+                        orient_bad = (f"arc (0,0) -> {end}, rx={rx} ry={ry}, large={large} sweep={sweep}: centre {got}; F.6.5.2 gives {want} "
+                                      "(the + root when the flags differ, the - root when they are equal)")
+    if orient_bad:
         ok = False
-        rep.fail("R-CASE.arc-flags", F, "if self.sweep == self.large: scale_factor = -scale_factor",
-                 "the centre is no longer mid + s*(-dy, dx) with s negated exactly when sweep == large (F.6.5.2: the sign is + when the flags differ): "
-                 "the arc is drawn around the other centre", A, fnode)
+        rep.fail("R-CASE.arc-flags", F, "choice between the two centres",
+                 f"{orient_bad}: the arc is drawn around the other centre", A, fnode)
     if ok:
         rep.ok("R-CASE.arc-flags", F + " [centre]", "C(0,0)=C(1,1), C(0,1)=C(1,0), C(0,0)+C(0,1) = start+end (rational-function identities, sqrt/max opaque)", True)
     # theta adjustment
@@ -277,98 +288,83 @@ def _check_flags(repo, rep):
 
 
 def _check_segments(repo, rep):
+    """One iteration of the segment loop of _arc_to_cubic, interpreted for a symbolic segment index i of n: the yielded
+    control points and end point equal the tangent construction on the unit circle at angles theta1 + i*theta_arc/n and
+    theta1 + (i+1)*theta_arc/n, mapped by translate(center) o rotate(phi) o scale(rx, ry); the last segment ends at the
+    arc's own end point.  (Consecutive segments join because the end angle of i is the start angle of i+1.)"""
+    import copy as _copy
+    from sa.sym import Closure
     A = repo["arc_to_cubic"]
     fn = A.func("_arc_to_cubic")
     F = "arc_to_cubic._arc_to_cubic"
     rep.saw(F)
-    loop = [l for l in walk_no_nested(fn) if isinstance(l, ast.For)]
-    if len(loop) != 1 or unparse(loop[0].iter) != "range(num_segments)":
-        raise AnalysisError("_arc_to_cubic: segment loop not found")
-    loop = loop[0]
-    it = Interp(repo)
+    loops = [l for l in fn.body if isinstance(l, ast.For)]
+    if len(loops) != 1 or not (isinstance(loops[0].iter, ast.Call) and call_name(loops[0].iter) == "range" and len(loops[0].iter.args) == 1
+                              and isinstance(loops[0].iter.args[0], ast.Name) and isinstance(loops[0].target, ast.Name)):
+        raise AnalysisError("_arc_to_cubic: the segment loop `for <i> in range(<n>)` was not found at the top level of the function")
+    loop = loops[0]
+    nvar, ivar = loop.iter.args[0].id, loop.target.id
+    src = ast.parse(unparse(fn)).body[0]
+    k = [n for n, st in enumerate(src.body) if isinstance(st, ast.For)][0]
+    seg = _copy.deepcopy(src)
+    seg.name = "_one_segment"
+    seg.args.args = seg.args.args + [ast.arg(arg="__i"), ast.arg(arg="__n")]
+    seg.body = src.body[:k] + ast.parse(f"{nvar} = __n\n{ivar} = __i").body + src.body[k].body
+    ast.fix_missing_locations(seg)
+    clo = Closure(A, seg, None, "_one_segment")
     params = Rec(ClassRef("arc_to_cubic", "CenterParametrization"), {"theta1": S("t1"), "theta_arc": S("ta"), "center_point": P2("c")})
-    arc = ARC()
-    assigns = {unparse(s.targets[0]): s.value for s in loop.body if isinstance(s, ast.Assign) and isinstance(s.targets[0], ast.Name)}
 
-    def ev(expr, i):
-        env = {"__mod__": A, "arc_params": params, "arc": arc, "i": i, "num_segments": S("n")}
-        return it.eval(expr, env)
+    def setup(it):
+        it.hooks[("arc_to_cubic", "EllipticalArc.correct_out_of_range_radii")] = lambda i, a, k: a[0]
+        it.hooks[("arc_to_cubic", "EllipticalArc.end_to_center_parametrization")] = lambda i, a, k: params
 
-    try:
-        s_i1 = to_rf(ev(assigns["start_theta"], S("i") + 1))
-        e_i = to_rf(ev(assigns["end_theta"], S("i")))
-        s_0 = to_rf(ev(assigns["start_theta"], 0))
-        e_last = to_rf(ev(assigns["end_theta"], S("n") - 1))
-    except (KeyError, Undecided) as e:
-        raise AnalysisError(f"_arc_to_cubic: cannot evaluate the angle expressions: {e}")
-    if e_i.equals(s_i1) and s_0.equals(S("t1")) and e_last.equals(S("t1") + S("ta")):
-        rep.ok("R-POLY.arc-segments", f"{F}: end_theta(i) = start_theta(i+1); first segment starts at theta1, last ends at theta1 + theta_arc", "rational-function identities in i, n", True)
-    else:
-        rep.fail("R-POLY.arc-segments", F, "start_theta / end_theta", f"consecutive segments do not join: end_theta(i) = {e_i}, start_theta(i+1) = {s_i1}", A, loop)
-    # control points
-    env = {"__mod__": A, "arc_params": params, "arc": arc, "i": S("i"), "num_segments": S("n"), "start_theta": S("s"), "end_theta": S("e")}
-    try:
-        for st in loop.body:
-            if isinstance(st, ast.Assign) and isinstance(st.targets[0], ast.Name) and st.targets[0].id in ("t", "sin_start_theta", "cos_start_theta", "sin_end_theta", "cos_end_theta"):
-                env[st.targets[0].id] = it.eval(st.value, env)
-        p1 = it.eval([s for s in loop.body if isinstance(s, ast.Assign) and unparse(s.targets[0]) == "point1"][0].value, env)
-        endp = it.eval([s for s in loop.body if isinstance(s, ast.Assign) and unparse(s.targets[0]) == "end_point"][0].value, env)
-        env["end_point"] = endp
-        p2 = it.eval([s for s in loop.body if isinstance(s, ast.Assign) and unparse(s.targets[0]) == "point2"][0].value, env)
-    except (IndexError, Undecided) as e:
-        raise AnalysisError(f"_arc_to_cubic: cannot evaluate the control point expressions: {e}")
-    t = fn_atom("tan", (S("e") - S("s")) * RF.of(1) / 4) * RF.of(4) / 3
-    cs, sn, ce, se = fn_atom("cos", S("s")), fn_atom("sin", S("s")), fn_atom("cos", S("e")), fn_atom("sin", S("e"))
-    want1 = (cs - t * sn, sn + t * cs)
-    want2 = (ce + t * se, se - t * ce)
-    ok = to_rf(p1.f["x"]).equals(want1[0]) and to_rf(p1.f["y"]).equals(want1[1]) and to_rf(p2.f["x"]).equals(want2[0]) and to_rf(p2.f["y"]).equals(want2[1]) \
-        and to_rf(endp.f["x"]).equals(ce) and to_rf(endp.f["y"]).equals(se)
-    if ok:
-        rep.ok("R-POLY.arc-segments", f"{F}: unit-circle control points P1 = P(s) + t*T(s), P2 = P(e) - t*T(e), t = 4/3 tan((e-s)/4)", "", True)
-    else:
-        rep.fail("R-POLY.arc-segments", F, "point1 / point2 / end_point", f"control points are P1={p1}, P2={p2}; the tangent construction gives {want1}, {want2}", A, loop)
-    # point transform = translate(center) . rotate(phi) . scale(rx, ry)
-    from sa.rules.c11 import mul, mat, vals, same
-    pt_assign = [s for s in fn.body if isinstance(s, ast.Assign) and unparse(s.targets[0]) == "point_transform"]
-    if not pt_assign:
-        raise AnalysisError("_arc_to_cubic: point_transform not found")
-    try:
-        pt = it.eval(pt_assign[0].value, {"__mod__": A, "arc_params": params, "arc": arc})
-    except NeedDecisionError:
-        pt = None
-    except Exception as e:
-        pt = None
-        outs = None
+    outs = _und(explore(repo, clo, [], fresh_args=lambda: ([ARC(), S("i"), S("n")], {}), setup=setup, max_paths=64), F)
+    s_, e_ = S("t1") + S("i") * S("ta") / S("n"), S("t1") + (S("i") + 1) * S("ta") / S("n")
+    t = fn_atom("tan", (e_ - s_) * RF.of(1) / 4) * RF.of(4) / 3
+    cs, sn, ce, se = fn_atom("cos", s_), fn_atom("sin", s_), fn_atom("cos", e_), fn_atom("sin", e_)
     phi = fn_atom("radians", S("rot"))
-    want = mul(mul(mat(1, 0, 0, 1, S("cx"), S("cy")), mat(fn_atom("cos", phi), fn_atom("sin", phi), -fn_atom("sin", phi), fn_atom("cos", phi), 0, 0)), mat(S("rx"), 0, 0, S("ry"), 0, 0))
-    got = None
-    # translate() forks on (0,0) == (tx,ty): evaluate through explore on a tiny lambda-free wrapper
-    src_fn = ast.parse("def _pt(arc_params, arc):\n    return " + unparse(pt_assign[0].value)).body[0]
-    from sa.sym import Closure
-    clo = Closure(A, src_fn, None, "_pt")
-    outs = explore(repo, clo, [params, arc])
-    good = False
+    cp, sp = fn_atom("cos", phi), fn_atom("sin", phi)
+
+    def T(x, y):
+        x, y = x * S("rx"), y * S("ry")
+        return (cp * x - sp * y + S("cx"), sp * x + cp * y + S("cy"))
+
+    want1, want2, wante = T(cs - t * sn, sn + t * cs), T(ce + t * se, se - t * ce), T(ce, se)
+    seen_last = seen_mid = False
+    bad = None
     for o in outs:
-        if o.undecided:
-            raise AnalysisError(f"_arc_to_cubic.point_transform: {o.undecided}")
         if o.raised:
+            bad = f"raises {o.raised}"
             continue
-        if same(vals(o.value), want, o.equalities()):
-            good = True
-        else:
-            good = False
-            break
-    if good:
-        rep.ok("R-POLY.arc-segments", f"{F}: point_transform = translate(center) o rotate(radians(rotation)) o scale(rx, ry)", "matrix identity", True)
+        segs = list(o.value) if o.value is not None else []
+        if not segs:
+            # `not isfinite(t)`: the documented bail-out for a degenerate tangent
+            if any("isfinite" in repr(c) for c, _ in o.decisions):
+                continue
+            bad = "an iteration yields no segment"
+            continue
+        p1, p2, endp = segs[0]
+        eq = o.equalities() if hasattr(o, "equalities") else {}
+        last = any(v and ("i" in repr(c) and "n" in repr(c) and "==" in repr(c)) for c, v in o.decisions)
+
+        def same_pt(p, w, eq=eq):
+            from sa.rules.c11 import same
+            return same((to_rf(p.f["x"]), to_rf(p.f["y"])), w, eq)
+        if last:
+            seen_last = True
+            if not (repr(endp.f["x"]) == "ex" and repr(endp.f["y"]) == "ey"):
+                bad = f"the last segment ends at {endp}; it must end exactly at the arc's end point"
+            continue  # with i = n - 1 substituted the control points are the same formulas; checked on the general path
+        seen_mid = True
+        if not same_pt(p1, want1) or not same_pt(p2, want2):
+            bad = f"control points of segment i are {p1}, {p2}; the tangent construction P(s) + t T(s), P(e) - t T(e) with t = 4/3 tan((e-s)/4), mapped to user space, is expected"
+        elif not same_pt(endp, wante):
+            bad = f"segment i ends at {endp}; the point of the ellipse at angle theta1 + (i+1) theta_arc / n is expected"
+    if bad or not (seen_last and seen_mid):
+        rep.fail("R-POLY.arc-segments", F, "one iteration of the segment loop", (bad or "the loop does not distinguish the last segment (which must end exactly at the arc's end point)")[:600], A, loop)
     else:
-        rep.fail("R-POLY.arc-segments", F, unparse(pt_assign[0].value), "the map from the unit circle back to user space is not translate(center) * rotate(phi) * scale(rx, ry)", A, pt_assign[0])
-    # exact last end point and transformed intermediate points
-    lt = unparse(loop)
-    if "if i == num_segments - 1:\n        end_point = arc.end_point\n    else:\n        end_point = point_transform.map_point(end_point)" in lt \
-            and "point1 = point_transform.map_point(point1)" in lt and "point2 = point_transform.map_point(point2)" in lt and "yield (point1, point2, end_point)" in lt:
-        rep.ok("R-POLY.arc-segments", f"{F}: last segment ends at the unmodified arc end point; every other point goes through point_transform", "", True)
-    else:
-        rep.fail("R-POLY.arc-segments", F, "if i == num_segments - 1: end_point = arc.end_point", "the last cubic no longer ends exactly at the arc's end point / points bypass the transform", A, loop)
+        rep.ok("R-POLY.arc-segments", F, "segment i of n: P1 = T(P(s_i) + t T'(s_i)), P2 = T(P(e_i) - t T'(e_i)), end = T(P(e_i)) with e_i = s_{i+1}, T = translate(center) o rotate(phi) o scale(rx, ry); "
+                                         "last segment ends at the arc's own end point (rational-function identities)", True)
 
 
 class NeedDecisionError(Exception):
